@@ -269,3 +269,64 @@ void h_b_bkfft(void) {
     VERIF_REACH();
 }
 #endif
+
+#ifdef H_BKFFT_U
+/* init_LweBootstrappingKeyFFT / destroy_, UNBOUNDED in the input dimension n and in the extracted dimension M = k*N (loop contracts on all four
+ * loops), (t, basebit) enumerated, watched symbolic indices g_i < M (key-switching rows) and g_c < n (FFT rows): the FFT key gets a key-switching
+ * key OF ITS OWN with M rows (the extracted dimension, not N), same t / basebit / output parameters; for index g_i every row (j, p) is copied exactly
+ * once from the same position of the coefficient-domain key; for every other index every copy pairs equal positions; one FFT image per input
+ * coefficient, slot g_c converted exactly once from bk->bk[g_c]; parameter pointers carried over; destruction releases both owned objects once. */
+#define T_ VERIF_T
+#define BB_ VERIF_BASEBIT
+#define BASE_ (1 << VERIF_BASEBIT)
+#include "bkf.inc"        /* generated: BKF_BLOCKS(M) = M(0)..M(t-1); BKF_ROWS(M) = M(j,p) for j < t, p < base; BKF_MASK(j,p) */
+int32_t u_bad, u_cpB, u_conv, u_convW, g_i, g_c; uint64_t u_hit;
+#include "c_bkfft.h"
+static LweSample *srcA[T_], *srcB[T_], *dstA[T_], *dstB[T_];
+static const LweParams *x_io; static const TGswParams *x_gp; static const LweBootstrappingKey *x_bk;
+static int n_newks, n_newfft, n_delks, n_delfft; static int32_t x_M, x_n; static LweKeySwitchKey nk; static TGswSampleFFT *own_fft;
+LweKeySwitchKey *new_LweKeySwitchKey(int32_t n, int32_t t, int32_t basebit, const LweParams *out_params) {
+    n_newks++; if (n != x_M || t != T_ || basebit != BB_ || out_params != x_io) u_bad++; return &nk; }
+void delete_LweKeySwitchKey(LweKeySwitchKey *obj) { n_delks++; if (obj != &nk) u_bad++; }
+#define CP_B(j, p) if (result == &dstB[j][p]) { found = 1; u_cpB++; if (sample != &srcB[j][p] || ((u_hit >> ((j) * BASE_ + (p))) & 1u)) u_bad++; u_hit |= (uint64_t)1 << ((j) * BASE_ + (p)); }
+#define CP_A(j, p) if (result == &dstA[j][p]) { found = 1; if (sample != &srcA[j][p]) u_bad++; }
+void lweCopy(LweSample *result, const LweSample *sample, const LweParams *params) {
+    int found = 0;
+    BKF_ROWS(CP_B)
+    BKF_ROWS(CP_A)
+    if (!found || params != x_io) u_bad++; }
+TGswSampleFFT *new_TGswSampleFFT_array(int32_t nbelts, const TGswParams *params) { n_newfft++; if (nbelts != x_n || params != x_gp) u_bad++; own_fft = verif_alloc((size_t)x_n * sizeof(TGswSampleFFT)); return own_fft; }
+void delete_TGswSampleFFT_array(int32_t nbelts, TGswSampleFFT *obj) { n_delfft++; if (obj != own_fft || nbelts != x_n) u_bad++; else free(obj); }
+void tGswToFFTConvert(TGswSampleFFT *result, const TGswSample *source, const TGswParams *params) {
+    if (result != own_fft + u_conv || source != x_bk->bk + u_conv || params != x_gp) u_bad++;       /* slot i from key coefficient i, in order */
+    if (u_conv == g_c) u_convW++;
+    u_conv++; }
+#include "extracted.inc"
+void h_bkfft_unbounded(void) {
+    int32_t n, M; __CPROVER_assume(n >= 1 && n <= VERIF_NMAX && M >= 1 && M <= VERIF_NMAX); x_n = n; x_M = M;
+#define BF_ALLOC(j) srcA[j] = verif_alloc((size_t)BASE_ * sizeof(LweSample)); srcB[j] = verif_alloc((size_t)BASE_ * sizeof(LweSample)); dstA[j] = verif_alloc((size_t)BASE_ * sizeof(LweSample)); dstB[j] = verif_alloc((size_t)BASE_ * sizeof(LweSample));
+    BKF_BLOCKS(BF_ALLOC)
+    LweSample ***st = verif_alloc((size_t)M * sizeof(LweSample **)), ***dt = verif_alloc((size_t)M * sizeof(LweSample **));
+    __CPROVER_array_set(st, (LweSample **)srcA); __CPROVER_array_set(dt, (LweSample **)dstA);
+    int32_t gi, gc; __CPROVER_assume(gi >= 0 && gi < M && gc >= 0 && gc < n); g_i = gi; g_c = gc; st[gi] = (LweSample **)srcB; dt[gi] = (LweSample **)dstB;
+    LweParams ip; *(int32_t *)&ip.n = n; TLweParams tp; *(int32_t *)&tp.extracted_lweparams.n = M; TGswParams gp; *(const TLweParams **)&gp.tlwe_params = &tp;
+    LweKeySwitchKey sks; sks.n = M; sks.t = T_; sks.basebit = BB_; sks.base = BASE_; sks.out_params = &ip; sks.ks = st;
+    nk.n = M; nk.t = T_; nk.basebit = BB_; nk.base = BASE_; nk.out_params = &ip; nk.ks = dt;
+    LweBootstrappingKey bk; *(const LweParams **)&bk.in_out_params = &ip; *(const TGswParams **)&bk.bk_params = &gp; *(const TLweParams **)&bk.accum_params = &tp;
+    *(const LweParams **)&bk.extract_params = &tp.extracted_lweparams; bk.bk = verif_alloc((size_t)n * sizeof(TGswSample)); bk.ks = &sks;
+    x_io = &ip; x_gp = &gp; x_bk = &bk; u_bad = u_cpB = u_conv = u_convW = 0; u_hit = 0; n_newks = n_newfft = n_delks = n_delfft = 0;
+    LweBootstrappingKeyFFT obj;
+    init_LweBootstrappingKeyFFT(&obj, &bk);
+    __CPROVER_assert(n_newks == 1 && n_newfft == 1 && u_bad == 0, "one key-switching key of the EXTRACTED dimension (k*N rows, same t, basebit, output parameters) and one array of n FFT rows are allocated; every copy pairs equal positions; every conversion goes from key coefficient i to slot i");
+    __CPROVER_assert(obj.ks == &nk && obj.ks != &sks && obj.bkFFT == own_fft, "the FFT key owns its key-switching key (not the coefficient-domain key's) and its FFT rows");
+    __CPROVER_assert(u_cpB == T_ * BASE_ && u_hit == BKF_MASK(T_, 0), "index g_i: every row (j, p) copied exactly once, by no other iteration");
+    __CPROVER_assert(u_conv == n && u_convW == 1, "one FFT image per input key coefficient; slot g_c converted exactly once");
+    __CPROVER_assert(obj.in_out_params == &ip && obj.bk_params == &gp && obj.accum_params == &tp && obj.extract_params == &tp.extracted_lweparams, "parameter pointers carried over");
+    destroy_LweBootstrappingKeyFFT(&obj);
+    __CPROVER_assert(n_delks == 1 && n_delfft == 1 && u_bad == 0, "destruction releases the owned key-switching key and the FFT rows, each once");
+#define BF_FREE(j) free(srcA[j]); free(srcB[j]); free(dstA[j]); free(dstB[j]);
+    BKF_BLOCKS(BF_FREE)
+    free(st); free(dt); free(bk.bk);
+    VERIF_REACH();
+}
+#endif
